@@ -35,6 +35,7 @@ Public API
     src_to_gallina(schema), doc_to_gallina(doc)   Gallina printers (coq/Model/Src.v, coq/Model/Json.v)
 """
 import json
+import re
 from decimal import Decimal
 
 FORMATS = ("jsonschema", "openapi", "cue")
@@ -49,7 +50,10 @@ INT_RANGE = {
 #   nullable_union  `A | B | null` unions of scalars (the null is a branch: cog names the type AOrBOrNull)
 #   repeat_union    the same union of scalars at several positions of a schema (one generated Go type reused);
 #                   with nullable_union also "twins": the same nullable union in >= 2 required positions
+#   nullable_typearray  a nullable scalar member written {"type": ["integer","null"], "minimum": 1} in JSON Schema
+#                   (field flag "nullta"; cog's front-end drops the constraints of that shape: known finding)
 EXTRA_FEATURES = ("case_twins", "nullable_union", "repeat_union")
+FRONTEND_FEATURES = ("nullable_typearray",)
 ALL_FEATURES = ("bool", "int", "float", "string", "datetime", "any", "const", "enum", "array", "map", "ref",
                 "struct", "union", "dunion", "recursive", "nullable", "bounds", "widths", "alias")
 
@@ -190,8 +194,9 @@ def type_to_gallina(t):
         return "(SRef %s)" % g_str(t["name"])
     if k == "struct":
         return "(SStruct [" + "; ".join(
-            "(mkSField %s %s %s %s)" % (g_str(f["name"]), type_to_gallina(f["t"]), "true" if f["req"] else "false",
-                                        "true" if f.get("null") else "false") for f in t["fields"]) + "])"
+            "(mkSField %s %s %s %s %s)" % (g_str(f["name"]), type_to_gallina(f["t"]), "true" if f["req"] else "false",
+                                           "true" if f.get("null") else "false", "true" if f.get("nullta") else "false")
+            for f in t["fields"]) + "])"
     if k == "union":
         return "(SUnion [" + "; ".join(type_to_gallina(b) for b in t["of"]) + "])"
     if k == "dunion":
@@ -397,7 +402,10 @@ class SrcGen:
         if null and t["k"] == "union":
             # `T1 | T2 | null`: how the null branch is written (JSON Schema: a type array or a oneOf branch)
             t["nullform"] = r.choice(["typearray", "oneof"]) if all(b["k"] != "array" for b in t["of"]) else "oneof"
-        return {"name": name, "t": t, "req": req, "null": null}
+        f = {"name": name, "t": t, "req": req, "null": null}
+        if null and t["k"] in ("int", "float", "string", "bool") and self.has("nullable_typearray") and r.random() < 0.4:
+            f["nullta"] = True
+        return f
 
     def struct(self, depth):
         r = self.rng
@@ -711,6 +719,8 @@ def _js_type(t, refprefix, openapi=False, closed=False):
             if f.get("null"):
                 if openapi:
                     ft = dict(ft, nullable=True)
+                elif f.get("nullta"):
+                    ft = dict(ft, type=[ft["type"], "null"])
                 elif f["t"]["k"] == "union":
                     # a flat union with a null branch (what cog names <A>Or<B>OrNull)
                     if f["t"].get("nullform") == "typearray":
@@ -1420,6 +1430,9 @@ def json_same(a, b):
     return _json_same(a, b)
 
 
+_STRESS_TS = re.compile(r"^\d{4}-\d\d-\d\dT\d\d:\d\d:\d\d")
+
+
 def stress_doc(rng, doc, p=0.25):
     """type-agnostic perturbations that exercise encoding/json corner cases (the result is usually NOT
     valid for the schema): a key renamed to a case variant, a scalar member duplicated with another
@@ -1438,7 +1451,10 @@ def stress_doc(rng, doc, p=0.25):
                 elif c < 0.7 and not isinstance(v, (dict, list, DupObj)) and v is not None:
                     # the duplicate has the same JSON type: Go decodes a later duplicate INTO the earlier
                     # value (visible for disjunction structs), the model replaces it
-                    other = ("dup" if isinstance(v, str) else (not v) if isinstance(v, bool) else 7)
+                    # (a date-time stays a date-time: encoding/json decodes EVERY duplicate of a map[string]time.Time
+                    # entry, so an ill-formed discarded duplicate fails the decode: outside the properties' domain)
+                    other = (("2000-01-01T00:00:00Z" if _STRESS_TS.match(v) else "dup") if isinstance(v, str)
+                             else (not v) if isinstance(v, bool) else 7)
                     pair = [(k, other), (k, v)] if rng.random() < 0.5 else [(k, v), (k, other)]
                     if rng.random() < 0.3 and k:
                         pair[0] = (k.upper(), pair[0][1])
